@@ -9,7 +9,8 @@
 (*       monitor (strict configs: model counterexamples, to be reproduced).  *)
 EXTENDS StoreBackend, Json
 
-CONSTANT Depth
+CONSTANTS Depth,        \* length of a simulation walk
+          CoverOneIn    \* state cover: print one state in CoverOneIn
 
 \* One successor per step, drawn by TLC's seeded generator (RandomElement), weighted so that
 \* cursor calls are frequent: a walk costs one Apply per step instead of one per possible call.
@@ -30,13 +31,23 @@ SimFinish == /\ Len(hist) = Depth + 1
 SimNext == SimStep \/ SimFinish
 SimSpec == Init /\ [][SimNext]_vars
 
-\* evaluated once per distinct (VIEW) state: hist is the BFS path that reached it first
-Inv_Cover == PrintT(<<"VP", "COV", ToJson(hist)>>)
+\* State cover: evaluated once per distinct (VIEW) state; hist is the BFS path that reached the
+\* state first.  One state in CoverOneIn is printed (seeded draw).
+Inv_Cover == RandomElement(1..CoverOneIn) = 1 => PrintT(<<"VP", "COV", ToJson(hist)>>)
 
-Act_StrictCex ==
-  [][StepOK(AllMonitors)
-     \/ (PrintT(<<"VP", "CEX", ToJson([script |-> hist',
-                                         failed |-> FailedMonitors(b, PreS, op'.op, op'.round, op'.res,
-                                                                   Apply(b, K, PreS, op'.op, op'.round, op'.v)),
-                                         shape |-> op'.shape])>>) /\ FALSE)]_vars
+\* Classification of every call of the complete graph at which the transcribed code breaks a
+\* monitor: the path to the first call of each class (back-end, call, shape, failed monitors) is
+\* printed as a model counterexample (CEX).  Never false: which classes are tolerated is decided by
+\* StoreBackend!Act_ModuloNamed, and a class becomes a verdict only when the trace monitors see it on
+\* the real stores.  (TLC register 1 holds the classes seen by this worker.)
+ClassInit == TLCSet(1, {})
+Act_Classify ==
+  [][LET f == FailedMonitors(b, PreS, op'.op, op'.round, op'.res, Apply(b, K, PreS, op'.op, op'.round, op'.v))
+         key == <<b, op'.op, op'.shape, f>>
+     IN \/ f = {}
+        \/ key \in TLCGet(1)
+        \/ /\ TLCSet(1, TLCGet(1) \cup {key})
+           /\ PrintT(<<"VP", "CEX", ToJson([script |-> hist', failed |-> f, shape |-> op'.shape])>>)]_vars
+MCInit == Init /\ ClassInit
+MCSpec == MCInit /\ [][Next]_vars
 =============================================================================
